@@ -34,6 +34,12 @@ struct Res {
     lkp2: tfm::ligkern::CompiledProgram,
     font_space2: FontSpace,
     fonts2: bwt::TfmFontRepo,
+    /// an 8-bit font with the slots 0x85 and 0xA0 (smfebsl10 of the repository's test data), alone as font 0
+    tfm3: tfm::File,
+    lkp3: tfm::ligkern::CompiledProgram,
+    font_space3: FontSpace,
+    fonts3: bwt::TfmFontRepo,
+    hyph3: boxworks_hyphenate::Hyphenator,
     repo: String,
 }
 
@@ -57,7 +63,24 @@ fn load_res() -> Result<Res, String> {
     let mut fonts2: bwt::TfmFontRepo = Default::default();
     fonts2.register_font(0, tfm_file.clone());
     fonts2.register_font(1, tfm2.clone());
-    Ok(Res { tfm: tfm_file, lkp, fonts, hyph, font_space, tfm2, lkp2, font_space2, fonts2, repo })
+    let path3 = format!("{repo}/crates/tfm/corpus/ctan/smfebsl10-3.tfm");
+    let bytes3 = std::fs::read(&path3).map_err(|e| format!("cannot read {path3}: {e}"))?;
+    let mut tfm3 = tfm::File::deserialize(&bytes3).0.map_err(|e| format!("smfebsl10-3.tfm does not parse: {e:?}"))?;
+    let lkp3 = tfm::ligkern::CompiledProgram::compile_from_tfm_file(&mut tfm3).0;
+    let fs3 = |n| tfm3.named_param_scaled(n).map(|s| s.0 as i64).ok_or_else(|| "smfebsl10 lacks a font parameter".to_string());
+    let font_space3 = FontSpace { space: Spec::new(fs3(tfm::NamedParameter::Space)?, fs3(tfm::NamedParameter::Stretch)?, fs3(tfm::NamedParameter::Shrink)?), extra: fs3(tfm::NamedParameter::ExtraSpace)? };
+    let mut fonts3: bwt::TfmFontRepo = Default::default();
+    fonts3.register_font(0, tfm3.clone());
+    for c in ['\u{85}', '\u{a0}', '\u{e9}'] {
+        if fonts3.width(c, 0).is_none() {
+            return Err(format!("smfebsl10 has no character {:#x}", c as u32));
+        }
+    }
+    if fonts.width('\u{b}', 0).is_none() || fonts.width('\u{a0}', 0).is_some() {
+        return Err("cmr10 is expected to have slot 0x0B and no slot 0xA0".into());
+    }
+    let hyph3 = boxworks_hyphenate::Hyphenator::plain_tex_en_us(lkp3.clone());
+    Ok(Res { tfm: tfm_file, lkp, fonts, hyph, font_space, tfm2, lkp2, font_space2, fonts2, tfm3, lkp3, font_space3, fonts3, hyph3, repo })
 }
 
 /// The toy font of the hand-built lists (design-probes/kp_probe.rs).
@@ -253,9 +276,14 @@ fn text_params(s: &SkipSet) -> bwt::Params {
     p
 }
 
-fn make_hlist(res: &Res, s: &SkipSet, text: &str) -> Vec<H> {
+/// `font`: 0 = cmr10, 2 = smfebsl10 (registered alone, as font 0).
+fn make_hlist(res: &Res, s: &SkipSet, text: &str, font: u64) -> Vec<H> {
     let mut tp = bwt::TextPreprocessorImpl::new(text_params(s));
-    tp.register_font(0, &res.tfm, res.lkp.clone());
+    if font == 2 {
+        tp.register_font(0, &res.tfm3, res.lkp3.clone());
+    } else {
+        tp.register_font(0, &res.tfm, res.lkp.clone());
+    }
     tp.activate_font(0);
     let mut list = vec![];
     tp.add_text(text, &mut list);
@@ -286,12 +314,12 @@ fn make_hlist_fonts(res: &Res, s: &SkipSet, words: &[&str], fonts: &[u32]) -> Ve
     list
 }
 
-fn check_hlist(idx: u64, res: &Res, text: &str, skip_idx: usize, acc: &mut Acc) {
+fn check_hlist(idx: u64, res: &Res, text: &str, skip_idx: usize, font: u64, acc: &mut Acc) {
     let sets = skip_sets();
     let s = &sets[skip_idx];
-    let case = || json!({"kind": "hlist", "text": text, "skips": skip_idx, "skips_name": s.name});
-    let lenient = text.chars().any(|c| c as u32 >= 128);
-    check_hlist_core(idx, res, &|| make_hlist(res, s, text), para::split_words(text), &[], s, &case, lenient, acc);
+    let case = || json!({"kind": "hlist", "text": text, "skips": skip_idx, "skips_name": s.name, "font": font, "font_name": if font == 2 { "smfebsl10" } else { "cmr10" }});
+    let (fr, fs0) = if font == 2 { (&res.fonts3, res.font_space3) } else { (&res.fonts2, res.font_space) };
+    check_hlist_core(idx, res, &|| make_hlist(res, s, text, font), para::split_words(text), &[], s, &case, fr, fs0, acc);
 }
 
 fn check_hlist_fonts(idx: u64, res: &Res, words: &[&str], fonts: &[u32], skip_idx: usize, acc: &mut Acc) {
@@ -299,14 +327,14 @@ fn check_hlist_fonts(idx: u64, res: &Res, words: &[&str], fonts: &[u32], skip_id
     let s = &sets[skip_idx];
     let case = || json!({"kind": "hlist2", "words": words, "fonts": fonts, "skips": skip_idx, "skips_name": s.name});
     let w = para::Words { leading: false, words: words.iter().map(|w| w.to_string()).collect(), trailing: false };
-    check_hlist_core(idx, res, &|| make_hlist_fonts(res, s, words, fonts), w, fonts, s, &case, false, acc);
+    check_hlist_core(idx, res, &|| make_hlist_fonts(res, s, words, fonts), w, fonts, s, &case, &res.fonts2, res.font_space, acc);
 }
 
-/// `word_fonts`: font current for each word (empty = font 0 throughout). `lenient`: the text has
-/// characters that are not in the font (outside the property's quantifier "text over the font's
-/// characters"; TeX drops such characters): the list may spell the words with or without them.
+/// `word_fonts`: font current for each word (empty = font 0 throughout); `fr`: the fonts, `fs0`: the
+/// space parameters of font 0. A character that is in the font must appear in the list; one that
+/// is not may be dropped (TeX drops it) but never becomes glue or a word boundary.
 #[allow(clippy::too_many_arguments)]
-fn check_hlist_core(idx: u64, res: &Res, build: &dyn Fn() -> Vec<H>, words: para::Words, word_fonts: &[u32], s: &SkipSet, case: &dyn Fn() -> Value, lenient: bool, acc: &mut Acc) {
+fn check_hlist_core(idx: u64, res: &Res, build: &dyn Fn() -> Vec<H>, words: para::Words, word_fonts: &[u32], s: &SkipSet, case: &dyn Fn() -> Value, fr: &bwt::TfmFontRepo, fs0: FontSpace, acc: &mut Acc) {
     acc.eval();
     let list = match catch(build) {
         Ok(l) => l,
@@ -316,15 +344,30 @@ fn check_hlist_core(idx: u64, res: &Res, build: &dyn Fn() -> Vec<H>, words: para
             return;
         }
     };
-    let items = conv_list(&list, &res.fonts2);
+    let items = conv_list(&list, fr);
     let code: &dyn Fn(u32) -> i64 = code_fn(s.codes);
     let font_of_word = |i: usize| -> FontSpace {
         if word_fonts.get(i).copied().unwrap_or(0) == 1 {
             res.font_space2
         } else {
-            res.font_space
+            fs0
         }
     };
+    {
+        let is_ws = |c: char| c.is_whitespace() && !para::is_separator(c);
+        if words.words.iter().any(|w| w.chars().any(|c| is_ws(c) && !c.is_ascii() && fr.width(c, 0).is_some())) {
+            acc.count("word_contains_non_ascii_white_space_char_present_in_font");
+        }
+        if words.words.iter().any(|w| w.chars().any(|c| is_ws(c) && !c.is_ascii() && fr.width(c, 0).is_none())) {
+            acc.count("word_contains_non_ascii_white_space_char_absent_from_font");
+        }
+        if words.words.iter().any(|w| w.contains('\u{b}') && fr.width('\u{b}', 0).is_some()) {
+            acc.count("word_contains_vertical_tab_present_in_font");
+        }
+        if words.words.iter().any(|w| w.chars().next().map(is_ws).unwrap_or(false)) {
+            acc.count("word_begins_with_non_separator_white_space");
+        }
+    }
     if word_fonts.iter().any(|f| *f == 1) && words.words.len() >= 2 && word_fonts[..word_fonts.len() - 1].iter().any(|f| *f == 1) {
         acc.count("space_glue_from_second_font");
     }
@@ -430,11 +473,19 @@ fn check_hlist_core(idx: u64, res: &Res, build: &dyn Fn() -> Vec<H>, words: para
         want_words.push(String::new());
     }
     let got_words = para::word_spellings(&items);
-    let in_font = |w: &String| -> String { w.chars().filter(|c| (*c as u32) < 128).collect() };
-    let lenient_ok = lenient && got_words == want_words.iter().map(in_font).collect::<Vec<_>>();
-    if got_words != want_words && !lenient_ok {
+    // which font is current for the k-th segment (a leading empty segment belongs to word 0)
+    let off = usize::from(words.leading);
+    let spelled_ok = got_words.len() == want_words.len()
+        && want_words.iter().zip(got_words.iter()).enumerate().all(|(k, (w, g))| {
+            let f = word_fonts.get(k.saturating_sub(off)).copied().unwrap_or(0);
+            para::spells(w, g, &|c| fr.width(c, f).is_some())
+        });
+    if got_words != want_words && spelled_ok {
+        acc.class("note: characters that are not in the font were dropped from the list");
+    }
+    if !spelled_ok {
         acc.class("FAIL hlist does not spell the words");
-        acc.fail(idx, case(), format!("{want_words:?}"), format!("{got_words:?}  list: {}", para::show_list(&items)), "the horizontal list does not spell the input words between its glue items");
+        acc.fail(idx, case(), format!("{want_words:?}"), format!("{got_words:?}  list: {}", para::show_list(&items)), "the horizontal list does not spell the input words between its glue items (one segment per word, every character of the font present, nothing else)");
         return;
     }
     let got = glues_of(&items);
@@ -513,7 +564,7 @@ fn show_lines(lines: &[Vec<Item>]) -> String {
 }
 
 #[allow(clippy::too_many_arguments)]
-fn check_para<F: FontRepo>(idx: u64, acc: &mut Acc, case: &dyn Fn() -> Value, list0: &[H], fr: &F, hy: &dyn boxworks::Hyphenator, hyph_on: bool, kps: &KpSet, widths: &[Scaled], indents: &[Scaled], want_spelling: Option<&[String]>) {
+fn check_para<F: FontRepo>(idx: u64, acc: &mut Acc, case: &dyn Fn() -> Value, list0: &[H], fr: &F, hy: &dyn boxworks::Hyphenator, hyph_on: bool, kps: &KpSet, widths: &[Scaled], indents: &[Scaled], want_spelling: Option<(&str, &dyn Fn(char) -> bool)>) {
     acc.eval();
     let p = &kps.p;
     let br = match catch(|| run_breaker(list0, fr, hy, p, widths, indents)) {
@@ -534,11 +585,11 @@ fn check_para<F: FontRepo>(idx: u64, acc: &mut Acc, case: &dyn Fn() -> Value, li
         acc.class("note: break_line leaves a different list in its argument than the list the breakpoints index");
         acc.count("break_line_argument_differs");
     }
-    if let Some(w) = want_spelling {
+    if let Some((w, in_font)) = want_spelling {
         let got = para::spelling(&hl);
-        if !w.iter().any(|x| *x == got) {
+        if !para::spells(w, &got, in_font) {
             acc.class("FAIL the list that was broken does not spell the words");
-            acc.fail(idx, case(), w.join(" or "), format!("{got}  list: {}", para::show_list(&hl)), "the list that was broken (discretionaries not taken) does not spell the input words");
+            acc.fail(idx, case(), w, format!("{got}  list: {}", para::show_list(&hl)), "the list that was broken (discretionaries not taken) does not spell the input words");
             return;
         }
     }
@@ -855,7 +906,7 @@ fn para_text(words: &[&str]) -> String {
     }
 }
 
-fn check_text_para(idx: u64, res: &Res, text: &str, geom: usize, tweak_sel: &[usize], hyph_on: bool, acc: &mut Acc) {
+fn check_text_para(idx: u64, res: &Res, text: &str, geom: usize, tweak_sel: &[usize], hyph_on: bool, font: u64, acc: &mut Acc) {
     let gs = geoms();
     let tw = tweaks();
     let g = &gs[geom];
@@ -865,8 +916,8 @@ fn check_text_para(idx: u64, res: &Res, text: &str, geom: usize, tweak_sel: &[us
         (tw[*t].f)(&mut p, &mut s);
     }
     let names: Vec<&str> = tweak_sel.iter().map(|t| tw[*t].name).collect();
-    let case = || json!({"kind": "text", "text": text, "geom": geom, "geom_name": g.name, "tweaks": tweak_sel, "tweak_names": names, "hyph": hyph_on});
-    let list0 = match catch(|| make_hlist(res, &s, text)) {
+    let case = || json!({"kind": "text", "text": text, "geom": geom, "geom_name": g.name, "tweaks": tweak_sel, "tweak_names": names, "hyph": hyph_on, "font": font});
+    let list0 = match catch(|| make_hlist(res, &s, text, font)) {
         Ok(l) => l,
         Err(pn) => {
             acc.eval();
@@ -876,15 +927,11 @@ fn check_text_para(idx: u64, res: &Res, text: &str, geom: usize, tweak_sel: &[us
     };
     let widths: Vec<Scaled> = g.widths.iter().map(|w| Scaled(*w)).collect();
     let indents: Vec<Scaled> = g.indents.iter().map(|w| Scaled(*w)).collect();
-    let spelled: String = text.split(' ').collect();
-    // characters that are not in the font are outside the quantifier: kept (texcraft) or dropped (TeX)
-    let mut spelled = vec![spelled];
-    if spelled[0].chars().any(|c| c as u32 >= 128) {
-        let f: String = spelled[0].chars().filter(|c| (*c as u32) < 128).collect();
-        spelled.push(f);
-    }
-    let hy: &dyn boxworks::Hyphenator = if hyph_on { &res.hyph } else { &NoHyph };
-    check_para(idx, acc, &case, &list0, &res.fonts, hy, hyph_on, &KpSet { p }, &widths, &indents, Some(&spelled[..]));
+    let spelled: String = text.chars().filter(|c| !para::is_separator(*c)).collect();
+    let (fr, hyr) = if font == 2 { (&res.fonts3, &res.hyph3) } else { (&res.fonts, &res.hyph) };
+    let hy: &dyn boxworks::Hyphenator = if hyph_on { hyr } else { &NoHyph };
+    let in_font = |c: char| fr.width(c, 0).is_some();
+    check_para(idx, acc, &case, &list0, fr, hy, hyph_on, &KpSet { p }, &widths, &indents, Some((&spelled, &in_font)));
 }
 
 // --------------------------------------------------------------------------------- hand-built lists
@@ -1059,11 +1106,12 @@ fn check_fonts_para(idx: u64, res: &Res, words: &[&str], fonts: &[u32], skip_idx
     };
     let widths: Vec<Scaled> = g.widths.iter().map(|w| Scaled(*w)).collect();
     let indents: Vec<Scaled> = g.indents.iter().map(|w| Scaled(*w)).collect();
-    let spelled = vec![words.concat()];
+    let spelled = words.concat();
+    let all = |_: char| true;
     if list0.iter().any(|h| matches!(h, H::Char(c) if c.font == 1)) && list0.iter().any(|h| matches!(h, H::Char(c) if c.font == 0)) {
         acc.count("paragraph_with_characters_of_two_fonts");
     }
-    check_para(idx, acc, &case, &list0, &res.fonts2, &NoHyph, false, &KpSet { p: kp::Params::plain_tex_defaults() }, &widths, &indents, Some(&spelled[..]));
+    check_para(idx, acc, &case, &list0, &res.fonts2, &NoHyph, false, &KpSet { p: kp::Params::plain_tex_defaults() }, &widths, &indents, Some((&spelled, &all)));
 }
 /// (words, fonts) of the idx-th two-font case: word sequences of 1..=3 over VOCAB2, shortest first, each with every font assignment.
 fn nth_fonts_case(mut idx: u64) -> (Vec<&'static str>, Vec<u32>) {
@@ -1093,7 +1141,12 @@ fn count_fonts_cases(maxlen: u32) -> u64 {
 }
 
 /// Words with characters outside ASCII: 2-, 3- and 4-byte UTF-8, codes 233, 255 (last table entry) and 256.
-const VOCAB3: [&str; 6] = ["\u{e9}", "\u{100}.", "a\u{20ac}", "\u{1f600},", "\u{ff}", "a"];
+/// Plus characters with the Unicode White_Space property that are NOT word separators (U+0085 and
+/// U+00A0 are glyph slots of the 8-bit font smfebsl10, U+000B is a glyph slot of cmr10), inside, at
+/// the start and at the end of a word.
+const VOCAB3: [&str; 12] = ["\u{e9}", "\u{100}.", "a\u{20ac}", "\u{1f600},", "\u{ff}", "a", "a\u{85}b", "A\u{a0}", "x\u{2003}y", "\u{2028}z", "q\u{3000}", "\u{b}a\u{1680}"];
+/// Word separators: each ASCII white space kind alone, and a run of all five.
+const SEPS: [&str; 6] = [" ", "\t", "\n", "\r", "\x0c", " \t\n\x0c\r"];
 
 // ------------------------------------------------------------------------ model self-validation
 
@@ -1358,6 +1411,7 @@ fn self_validate(res: &Res) -> (Vec<String>, usize) {
 fn main() {
     let mut ctx = Ctx::new("C12", Level::Exploration);
     ctx.assume("font metrics (width/height/depth of a character, fontdimen 2,3,4,7 of cmr10) are taken from the tfm crate as input data; their correctness is C10/C11/C17");
+    ctx.assume("word separators are the ASCII white space characters space, tab, LF, FF, CR (add_text's documented split; plain TeX: catcode 10 / end of line); every other character, including U+000B and the non-ASCII White_Space characters, is word material: present in the list if the font has it, possibly dropped if not, never glue or a word boundary");
     ctx.assume("a text is a non-empty sequence of words separated by blanks, fed in horizontal mode with space factor 1000; a run of blanks is one space token (TeX §344-345); the glue of a trailing space token may be present or absent (line_break §816 removes it)");
     ctx.assume("width/indent sequences follow \\parshape: line i uses entry min(i, len-1); an empty indent sequence means 0");
     ctx.assume("'no line begins with discardable material' is read as TeX §879 implements it: lines after the first; material carried from a discretionary's post-break list and the item at which the line itself is broken are exempt");
@@ -1403,7 +1457,7 @@ fn main() {
             let words = nth_words(d[0]);
             match spaced(&words, d[1]) {
                 Some(text) => {
-                    check_hlist(i, res, &text, d[2] as usize, acc);
+                    check_hlist(i, res, &text, d[2] as usize, 0, acc);
                     if i % 200_003 == 11 {
                         acc.sample(i, || json!({"text": text, "skips": skip_sets()[d[2] as usize].name}));
                     }
@@ -1425,7 +1479,7 @@ fn main() {
                 let d = vcore::digits(i, &[nw, gs, stl, 2]);
                 let words = nth_words(lo + d[0]);
                 let text = para_text(&words);
-                check_text_para(i, res, &text, d[1] as usize, &st[d[2] as usize], d[3] == 1, acc);
+                check_text_para(i, res, &text, d[1] as usize, &st[d[2] as usize], d[3] == 1, 0, acc);
                 if i % 300_007 == 13 {
                     acc.sample(i, || json!({"text": text, "geom": geoms()[d[1] as usize].name, "tweaks": st[d[2] as usize].iter().map(|t| tweaks()[*t].name).collect::<Vec<_>>(), "hyph": d[3] == 1}));
                 }
@@ -1504,26 +1558,44 @@ fn main() {
             check_fonts_para(i, res, &words, &fonts, sk[d[1] as usize] as usize, gm[d[2] as usize] as usize, acc);
         });
     }
-    // F6: characters outside ASCII
+    // F6: characters outside ASCII, white space that is not a separator, every ASCII separator
     {
         let k = VOCAB3.len() as u64;
         let nw = vcore::strings_upto(k, 3) - 1;
         let sk = [0u64, 3, 12, 13];
-        let words_of = move |j: u64| -> Vec<&'static str> { vcore::nth_string(k, j + 1).into_iter().map(|x| VOCAB3[x as usize]).collect() };
-        ctx.family("hlist-text-wide", &format!("every sequence of 1..=3 words over {VOCAB3:?} (2-, 3-, 4-byte characters; codes 233, 255, 256) x 4 skip/sfcode settings"), nw * 4, |i, acc| {
-            let d = vcore::digits(i, &[nw, 4]);
-            let text = words_of(d[0]).join(" ");
-            check_hlist(i, res, &text, sk[d[1] as usize] as usize, acc);
-            if i == 40 {
-                acc.sample(i, || json!({"text": text}));
+        let ns = SEPS.len() as u64;
+        let text_of = move |j: u64, sep: u64, ends: u64| -> String {
+            let w: Vec<&'static str> = vcore::nth_string(k, j + 1).into_iter().map(|x| VOCAB3[x as usize]).collect();
+            let t = w.join(SEPS[sep as usize]);
+            if ends == 1 {
+                format!("{0}{t}{0}", SEPS[sep as usize])
+            } else {
+                t
             }
-        });
+        };
+        ctx.family(
+            "hlist-text-wide",
+            &format!("every sequence of 1..=3 words over {VOCAB3:?} (2-, 3-, 4-byte characters; codes 233, 255, 256; White_Space characters that are not separators) x {ns} separators (each ASCII white space kind, a run of all) x (bare, separator at both ends) x fonts smfebsl10 (has 0x85, 0xA0, 0xE9) / cmr10 (has 0x0B) x 4 skip/sfcode settings"),
+            nw * ns * 2 * 2 * 4,
+            |i, acc| {
+                let d = vcore::digits(i, &[nw, ns, 2, 2, 4]);
+                let text = text_of(d[0], d[1], d[2]);
+                let nwords = para::split_words(&text).words.len();
+                if nwords >= 2 && d[1] == ns - 1 {
+                    acc.count("text_separated_by_each_ascii_white_space_kind");
+                }
+                check_hlist(i, res, &text, sk[d[4] as usize] as usize, if d[3] == 0 { 2 } else { 0 }, acc);
+                if i % 50_021 == 40 {
+                    acc.sample(i, || json!({"text": text}));
+                }
+            },
+        );
         let gm = [0u64, 3, 1];
         let st: [&[usize]; 3] = [&[], &[6], &[18]];
-        ctx.family("para-text-wide", "the same texts x widths 36pt/20pt/90pt x (defaults, spaceskip, hyphenpenalty=-2000) x hyphenation off/on", nw * 18, |i, acc| {
-            let d = vcore::digits(i, &[nw, 3, 3, 2]);
-            let text = words_of(d[0]).join(" ");
-            check_text_para(i, res, &text, gm[d[1] as usize] as usize, st[d[2] as usize], d[3] == 1, acc);
+        ctx.family("para-text-wide", "the same words x separators (space, the run of all five) x widths 36pt/20pt/90pt x (defaults, spaceskip, hyphenpenalty=-2000) x hyphenation off/on x fonts smfebsl10 / cmr10", nw * 2 * 3 * 3 * 2 * 2, |i, acc| {
+            let d = vcore::digits(i, &[nw, 2, 3, 3, 2, 2]);
+            let text = text_of(d[0], if d[1] == 0 { 0 } else { ns - 1 }, 0);
+            check_text_para(i, res, &text, gm[d[2] as usize] as usize, st[d[3] as usize], d[4] == 1, if d[5] == 0 { 2 } else { 0 }, acc);
         });
     }
     for (c, m) in [
@@ -1539,6 +1611,11 @@ fn main() {
         ("text_with_2_byte_character", "text with a 2-byte UTF-8 character"),
         ("text_with_3_byte_character", "text with a 3-byte UTF-8 character"),
         ("text_with_4_byte_character", "text with a 4-byte UTF-8 character"),
+        ("word_contains_non_ascii_white_space_char_present_in_font", "a word holds U+0085 or U+00A0 and the font has that slot: the character must appear, it is not a separator"),
+        ("word_contains_non_ascii_white_space_char_absent_from_font", "a word holds U+1680/U+2003/U+2028/U+3000 (not in the font): may be dropped, never a word boundary"),
+        ("word_contains_vertical_tab_present_in_font", "a word holds U+000B (not ASCII white space for add_text) and the font has slot 0x0B"),
+        ("word_begins_with_non_separator_white_space", "a word begins with a White_Space character that is not a separator (first-character test of add_text)"),
+        ("text_separated_by_each_ascii_white_space_kind", "the words are separated by a run holding space, tab, line feed, form feed and carriage return"),
         ("characters_255_and_256", "text with the characters 255 (last sfcode entry) and 256 (first without one)"),
         ("penalty_sum_negative", "the penalties of §890 add up to a negative value"),
         ("penalty_sum_plus_one", "the penalties of §890 add up to +1"),
@@ -1578,10 +1655,10 @@ fn main() {
 fn replay(res: &Res, case: &Value, acc: &mut Acc) {
     let arr = |v: &Value| -> Vec<u64> { v.as_array().map(|a| a.iter().filter_map(|x| x.as_u64()).collect()).unwrap_or_default() };
     match case["kind"].as_str() {
-        Some("hlist") => check_hlist(0, res, case["text"].as_str().unwrap_or(""), case["skips"].as_u64().unwrap_or(0) as usize, acc),
+        Some("hlist") => check_hlist(0, res, case["text"].as_str().unwrap_or(""), case["skips"].as_u64().unwrap_or(0) as usize, case["font"].as_u64().unwrap_or(0), acc),
         Some("text") => {
             let tw: Vec<usize> = arr(&case["tweaks"]).into_iter().map(|x| x as usize).collect();
-            check_text_para(0, res, case["text"].as_str().unwrap_or(""), case["geom"].as_u64().unwrap_or(0) as usize, &tw, case["hyph"].as_bool().unwrap_or(false), acc)
+            check_text_para(0, res, case["text"].as_str().unwrap_or(""), case["geom"].as_u64().unwrap_or(0) as usize, &tw, case["hyph"].as_bool().unwrap_or(false), case["font"].as_u64().unwrap_or(0), acc)
         }
         Some("hlist2") | Some("text2") => {
             let words: Vec<String> = case["words"].as_array().map(|a| a.iter().filter_map(|x| x.as_str().map(|s| s.to_string())).collect()).unwrap_or_default();
